@@ -615,5 +615,22 @@ func builtinPrograms() []*Program {
 			"zed/v1/zed.j5s": j5s("package zed.v1", "import app.v1", "", "object Zed {", "  field app object:app.v1.App", "}"),
 		},
 	})
+
+	// 15. two j5s files of one package that refer to each other, one direction through a
+	// sub-package file: the topic (and the service) generated from user.j5s use Zone of zone.j5s,
+	// zone.j5s uses UserRef of user.j5s. The generated files form no import cycle
+	// (topic/user.p.j5s.proto -> zone.j5s.proto -> user.j5s.proto); a third package imports Zone.
+	out = append(out, &Program{
+		Name:     "builtin/subpkg_backref",
+		Packages: []string{"audit.v1", "users.v1"},
+		Files: map[string]string{
+			"users/v1/user.j5s": j5s("package users.v1", "", "object UserRef {", "  field userId string", "}", "",
+				"topic UserNote publish {", "  message Moved {", "    field zone object:Zone", "  }", "}", "",
+				"service UserZones {", "  basePath = \"/users/v1/zones\"", "  method GetZone {", "    httpMethod = \"GET\"", "    httpPath = \"/:userId\"",
+				"    request {", "      field userId string", "    }", "    response {", "      field zone object:Zone", "    }", "  }", "}"),
+			"users/v1/zone.j5s":  j5s("package users.v1", "", "object Zone {", "  field name string", "  field owner object:UserRef", "}"),
+			"audit/v1/audit.j5s": j5s("package audit.v1", "import users.v1", "", "object Entry {", "  field zone object:users.v1.Zone", "}"),
+		},
+	})
 	return out
 }
